@@ -33,7 +33,7 @@ def build(work, seed):
     k = 0
     for d in ("x", "x/y", "z"):
         for c in data:
-            if rng.random() < 0.8:
+            if rng.random() < 0.8 or (d == "x" and c is data[0]):          # x always holds a file (the target of the links below)
                 lib.write_file(os.path.join(base, d, "f%d" % k), c, lib.OLD_MTIME + k)
                 k += 1
     lib.write_file(os.path.join(base, "z", "only"), b"unique data", lib.OLD_MTIME)
